@@ -102,6 +102,20 @@ def brace_tokens(source, node) -> TokenRange:
     return first_token, end_token
 
 
+def with_parentheses(source, tokens: TokenRange, brace_left: Token) -> TokenRange:
+    """The parentheses around an expression like `(1+2)` are not part of its tokens,
+    but they belong to the element of the sequence."""
+    atok = source.asttokens()
+    first, last = tokens
+    while True:
+        before = atok.prev_token(first)
+        after = atok.next_token(last)
+        if before.string == "(" and after.string == ")" and before is not brace_left:
+            first, last = before, after
+        else:
+            return first, last
+
+
 def generic_sequence_update(
     source: SourceFile,
     parent: Union[ast.List, ast.Tuple, ast.Dict, ast.Call],
@@ -224,14 +238,16 @@ def apply_all(all_changes: List[Change], recorder: ChangeRecorder):
                 if isinstance(change, ListInsert)
             }
 
+            braces = brace_tokens(source, parent)
+
             def list_token_range(entry):
                 r = list(source.asttokens().get_tokens(entry))
-                return r[0], r[-1]
+                return with_parentheses(source, (r[0], r[-1]), braces[0])
 
             generic_sequence_update(
                 source,
                 parent,
-                brace_tokens(source, parent),
+                braces,
                 [None if e in to_delete else list_token_range(e) for e in parent.elts],
                 to_insert,
                 recorder,
@@ -247,7 +263,9 @@ def apply_all(all_changes: List[Change], recorder: ChangeRecorder):
                 if isinstance(node.parent, ast.keyword):
                     node = node.parent
                 r = list(atok.get_tokens(node))
-                return r[0], r[-1]
+                if isinstance(node, ast.keyword):
+                    return r[0], with_parentheses(source, (r[2], r[-1]), r[1])[1]
+                return with_parentheses(source, (r[0], r[-1]), braces_left)
 
             braces_left = atok.next_token(list(atok.get_tokens(parent.func))[-1])
             assert braces_left.string == "("
@@ -293,16 +311,20 @@ def apply_all(all_changes: List[Change], recorder: ChangeRecorder):
                 if isinstance(change, DictInsert)
             }
 
+            braces = brace_tokens(source, parent)
+
             def dict_token_range(key, value):
+                k = list(source.asttokens().get_tokens(key))
+                v = list(source.asttokens().get_tokens(value))
                 return (
-                    list(source.asttokens().get_tokens(key))[0],
-                    list(source.asttokens().get_tokens(value))[-1],
+                    with_parentheses(source, (k[0], k[-1]), braces[0])[0],
+                    with_parentheses(source, (v[0], v[-1]), braces[0])[1],
                 )
 
             generic_sequence_update(
                 source,
                 parent,
-                brace_tokens(source, parent),
+                braces,
                 [
                     None if value in to_delete else dict_token_range(key, value)
                     for key, value in zip(parent.keys, parent.values)
